@@ -17,6 +17,7 @@ RULE = (
     "selected by the native index of n == builder label; polygon n == polygon built from the "
     "coordinates stored at native index n; centre n == stored centre / centroid; spatial-index hits "
     "== brute force.  Non-trivial: datasets with holes, non-square or skewed grids, multi-kind."
+    ' Also: datasets reopened from netCDF, dask-backed variables, reversed dimension declaration, meshes with faces that have no geometry or nodes that belong to no face, and a second dataset of the same shape alive and used at the same time (nothing may leak between the two).'
 )
 LEVEL_TEXT = ('every cell of every grid kind of every dataset in the family list (all conventions, holes, skew, >10 cells): flattened value == value selected through the native index == builder label; polygon / centre / spatial-index position n belong to the cell at native index n')
 LEVEL_NOTE = ('shapely/GEOS as geometry kernel; dyadic coordinates; CF2D derived bounds next to holes not judged')
